@@ -306,7 +306,17 @@ fn oracle_check(a: &ATx, p: &PPlan, height: u64, verdict: &Verdict) -> Vec<(Stri
             if !viol.is_empty() {
                 let first = viol.iter().next().unwrap();
                 let class = if viol.contains("balance:outputs") || viol.contains("balance:fee") {
-                    "overspend-accepted".to_string()
+                    // is a true per-asset total (coin outputs + fee limit) beyond the 64-bit range involved?
+                    let at_boundary = if let ATx::Charge(t) = a {
+                        let base: Id = hexs(&p.base_asset);
+                        let (ins, outs, _) = spec_sums(t, &base);
+                        let fee = pol_get(&t.pol, 3).unwrap_or(0) as u128;
+                        outs.iter().any(|(asset, o)| {
+                            let need = o + if *asset == base { fee } else { 0 };
+                            need > ins.get(asset).cloned().unwrap_or(0) && need > u64::MAX as u128
+                        })
+                    } else { false };
+                    if at_boundary { "overspend-accepted-at-u64-boundary".to_string() } else { "overspend-accepted".to_string() }
                 } else {
                     format!("accepted-invalid:{first}")
                 };
